@@ -98,8 +98,10 @@ Proof.
 Qed.
 Print Assumptions num2str_roundtrip_refuted.
 
-(* number('-0') is +0 in the model (and the library): the short-string path goes through a long *)
-Theorem str2num_negzero_refuted :
-  to_bits (string_to_number [45; 48]%N) = 0 /\ to_bits (atof [45; 48]%N) = 0x8000000000000000.
-Proof. vm_compute. split; reflexivity. Qed.
-Print Assumptions str2num_negzero_refuted.
+(* number('-0') is -0 on both paths (the short-string path goes through a long, which has no negative
+   zero; repaired in the library by the coordinator's fix commit, the model follows the code) *)
+Theorem str2num_negzero :
+  to_bits (string_to_number [45; 48]%N) = 0x8000000000000000 /\ to_bits (atof [45; 48]%N) = 0x8000000000000000 /\
+  to_bits (string_to_number [32; 45; 48; 48; 32]%N) = 0x8000000000000000 /\ to_bits (string_to_number [48]%N) = 0.
+Proof. vm_compute. repeat split; reflexivity. Qed.
+Print Assumptions str2num_negzero.
